@@ -101,3 +101,6 @@ pub use graph_specs::{
 
 mod node;
 pub use node::Node;
+
+#[cfg(feature = "verif")]
+pub use graph::verif;
